@@ -157,6 +157,11 @@ func (c *Case) Run(o RunOpts) *RunResult {
 		variant = "race"
 	}
 	mrp := filepath.Join(c.BuildDir, variant, "bin", "mrp")
+	if _, err := os.Stat(mrp); err != nil && o.Race {
+		// no race build in this build directory: run the plain binary rather
+		// than recording a run that never started
+		mrp = filepath.Join(c.BuildDir, "plain", "bin", "mrp")
+	}
 	mro := o.MroFile
 	if mro == "" {
 		mro = "main.mro"
